@@ -70,7 +70,7 @@ theorem C12_failed_commit_structs_no_effect (s : State) (recs : List Rec) (b : B
 /-- Witness of finding D-COMMIT-PARTIAL: `k = v0` is committed; the transaction `[put k v1, put big]`
 fails at its second record, yet afterwards `Get k` no longer finds `v0` and `GetAll` returns the
 uncommitted `v1`. -/
-def w0 : State := (commit ({ opt := { seg := 100 }, opened := true } : State)
+def w0 : State := (commit (openDB { seg := 100 } []).1
   [{ (mkRec [97] [107] [48] flagSet dsKV) with txid := 1 }]).1
 
 def wFail := commit w0 [{ (mkRec [97] [107] [49] flagSet dsKV) with txid := 2 },
